@@ -244,7 +244,7 @@ class Repetition:
                 break
 
             new_match_set: MatchSet = set()
-            for match in last_match_set:
+            for match in sorted_by_longest_match(last_match_set):
                 g = self.element.lparse(source, match.start)
                 try:  # noqa: SIM105
                     new_match_set.update(
@@ -476,7 +476,8 @@ class Rule:
         matches = set(filterfalse(exclude, g))
         if matches:
             yield from [
-                Match([Node(self.name, *match.nodes)], match.start) for match in matches
+                Match([Node(self.name, *match.nodes)], match.start)
+                for match in sorted_by_longest_match(matches)
             ]
         else:
             raise ParseError(self, start) from None
